@@ -279,10 +279,12 @@ package prunner
 //@   safety
 //@   lockmode none
 //@   ensures  [C04.unknown] !(id in old(r.jobsByID)) ==> res == ErrJobNotFound && unchangedHeap()
-//@   ensures  [C04.alreadyCanceled] (id in old(r.jobsByID)) && old(r.jobsByID[id].Canceled) ==> res == nil && unchangedHeap()
+//@   ensures  [C04.alreadyCanceled] (id in old(r.jobsByID)) && old(r.jobsByID[id].Canceled) ==> res == nil && unchangedHeap(PipelineJob.cancelRequested)
 //@   ensures  [C04.finished] (id in old(r.jobsByID)) && !old(r.jobsByID[id].Canceled) && old(r.jobsByID[id].Completed) ==> res == errJobAlreadyCompleted && unchangedHeap()
 //@   ensures  [C04.waiting] (id in old(r.jobsByID)) && old(jobWaiting(r.jobsByID[id])) && !old(r.jobsByID[id].Completed) ==> res == nil && old(r.jobsByID[id]).Canceled && old(r.jobsByID[id]).Start == nil && tasksCanceled(old(r.jobsByID[id])) && $persist
 //@   ensures  [C04.running] (id in old(r.jobsByID)) && old(jobRunning(r.jobsByID[id])) ==> res == nil && same(PipelineJob.Canceled) && same(PipelineJob.Start) && same(PipelineJob.Completed)
+//@   ensures  [C04.requested] (id in old(r.jobsByID)) && old(jobRunning(r.jobsByID[id])) ==> old(r.jobsByID[id]).cancelRequested
+//@   ensures  [C04.requestKept] forall j *PipelineJob :: old(j.cancelRequested) ==> j.cancelRequested
 
 //@ func (*PipelineRunner).cancelJobInternal$1
 //@   lockmode none
@@ -313,7 +315,7 @@ package prunner
 //@   safety
 //@   lockmode none
 //@   assumes  [token] (id in r.jobsByID) ==> r.jobsByID[id].Start != nil && r.jobsByID[id].sched != nil
-//@   ensures  [C04.verdict] (id in old(r.jobsByID)) ==> old(r.jobsByID[id]).Completed && old(r.jobsByID[id]).End != nil && old(r.jobsByID[id]).LastError == err && (errIs(err, context.Canceled) ==> old(r.jobsByID[id]).Canceled) && (old(r.jobsByID[id]).Canceled ==> old(r.jobsByID[id].Canceled) || errIs(err, context.Canceled)) && old(r.jobsByID[id]).sched == nil
+//@   ensures  [C04.verdict] (id in old(r.jobsByID)) ==> old(r.jobsByID[id]).Completed && old(r.jobsByID[id]).End != nil && old(r.jobsByID[id]).LastError == err && (errIs(err, context.Canceled) ==> old(r.jobsByID[id]).Canceled) && (old(r.jobsByID[id].cancelRequested) ==> old(r.jobsByID[id]).Canceled) && (old(r.jobsByID[id]).Canceled ==> old(r.jobsByID[id].Canceled) || errIs(err, context.Canceled) || old(r.jobsByID[id].cancelRequested)) && old(r.jobsByID[id]).sched == nil
 //@   ensures  [C03.progress] (id in old(r.jobsByID)) ==> progress(r, old(r.jobsByID[id]).Pipeline) && $persist
 //@   ensures  [unknown] !(id in old(r.jobsByID)) ==> unchangedHeap()
 //@   ensures  [T] Tjobs()
@@ -586,6 +588,7 @@ package prunner
 // Only these functions contain a store to the life-cycle fields of a job (checked by a scan of every
 // store instruction of the package; bridge B2 relies on it).
 //@ writers PipelineJob.Start: (*PipelineRunner).startJob, buildJobFromPersistedJob
+//@ writers PipelineJob.cancelRequested: (*PipelineRunner).CancelJob
 //@ writers PipelineJob.End: (*PipelineRunner).JobCompleted, buildJobFromPersistedJob
 //@ writers PipelineJob.Created: (*PipelineRunner).ScheduleAsync, buildJobFromPersistedJob
 //@ writers PipelineJob.Completed: (*PipelineRunner).JobCompleted, buildJobFromPersistedJob
@@ -605,7 +608,7 @@ package prunner
 //
 //@ property C01: prunner.(*PipelineJob).isRunning/ensures* prunner.(*PipelineRunner).runningJobsCount/ensures* prunner.(*PipelineRunner).runningJobsCount/loop* prunner.*/ensures[C01.*] prunner.*/call-pre[(*PipelineRunner).startJob.slotFree]* prunner.*/call-pre[(*PipelineRunner).startJob.notStarted]* prunner.*/call-pre[(*PipelineRunner).startJob.offList]* prunner.*/ensures[T] prunner.*/loop*/inv-*[T] prunner.*/monitor[RI] prunner.*/ensures[ri] prunner.*/call-pre[*.ri]* prunner.*/loop*/inv-*[ri] prunner.*/assert[C01.*] prunner.*/assert[cnt*] lemma/cntFrame* prunner/writers[PipelineJob.Start] prunner/writers[PipelineJob.Completed] prunner/writers[PipelineJob.Canceled] prunner.*/call-pre[(*PipelineRunner).startJob$1.token]* prunner.(*PipelineRunner).startJobsOnWaitList/* prunner.(*PipelineRunner).startJob/* prunner.(*PipelineRunner).cancelJobInternal/* prunner.removeJobFromWaitList/* prunner.*/safety prunner.*/guarantee[T] prunner.*/ensures[C12.keepLive]
 //@ property C03: prunner.*/ensures[C03.*] prunner.*/monitor[RI] prunner.*/ensures[ri] prunner.*/call-pre[*.ri]* prunner.*/loop*/inv-*[ri] prunner.(*PipelineRunner).startJobsOnWaitList/loop* prunner.(*PipelineRunner).startJob/ensures[skipCanceled] prunner.removeJobFromWaitList/* prunner.*/ensures[C05.offList] prunner.*/ensures[C16.defsOnly] prunner.(*PipelineRunner).startJobsOnWaitList/* prunner.(*PipelineRunner).startJob/* prunner.(*PipelineRunner).cancelJobInternal/* prunner.removeJobFromWaitList/* prunner.*/ensures[C12.keepLive] prunner.(*PipelineRunner).SaveToStore/loop* prunner.*/safety
-//@ property C04: prunner.*/assert[C04.*] prunner.*/ensures[C04.*] prunner.(*PipelineRunner).startJob/ensures[skipCanceled] prunner.*/ensures[T] prunner.(*PipelineJob).markAsCanceled/* prunner.*/call-pre[(*PipelineRunner).startJob.*]* prunner/writers[PipelineJob.Canceled] prunner.*/monitor[RI] prunner.*/guarantee[T]
+//@ property C04: prunner.*/assert[C04.*] prunner.*/ensures[C04.*] prunner.(*PipelineRunner).startJob/ensures[skipCanceled] prunner.*/ensures[T] prunner.(*PipelineJob).markAsCanceled/* prunner.*/call-pre[(*PipelineRunner).startJob.*]* prunner/writers[PipelineJob.Canceled] prunner.*/monitor[RI] prunner.*/guarantee[T] prunner/writers[PipelineJob.cancelRequested]
 //@ property C05: prunner.*/ensures[C05.*] prunner.*/monitor[RI] prunner.*/ensures[ri] prunner.*/call-pre[*.ri]* prunner.*/loop*/inv-*[ri] prunner.removeJobFromWaitList/* prunner.(*PipelineRunner).runningJobsCount/* prunner.*/ensures[C15.reject] prunner.*/ensures[C15.accept] lemma/cntFrame* prunner.*/loop*/inv-*[others] prunner.*/loop*/inv-*[mine] prunner.*/loop*/inv-*[purged] prunner.(*PipelineRunner).startJobsOnWaitList/* prunner.(*PipelineRunner).startJob/* prunner.(*PipelineRunner).cancelJobInternal/* prunner.removeJobFromWaitList/* prunner.*/safety prunner.*/assert[wl*] prunner.*/assert[dist*]
 //@ property C06: prunner.*/ensures[C06.*] prunner.(*PipelineRunner).ScheduleAsync/ensures[C05.queue] prunner.(*PipelineRunner).ScheduleAsync/ensures[C05.replace] prunner.(*PipelineRunner).ScheduleAsync/ensures[C05.start] prunner.(*PipelineRunner).startJobsOnWaitList/loop* prunner.*/call-pre[(*PipelineRunner).startJob.offList]* prunner.removeJobFromWaitList/* prunner.*/monitor[RI] prunner.*/ensures[C12.waitLists] prunner.(*PipelineRunner).startJobsOnWaitList/* prunner.(*PipelineRunner).startJob/* prunner.(*PipelineRunner).cancelJobInternal/* prunner.removeJobFromWaitList/* prunner.*/ensures[T] prunner.*/ensures[ri] prunner.*/call-pre[*.ri]* prunner.*/ensures[C12.keepLive]
 //@ property C07: prunner.*/ensures[C07.*] prunner.*/call-pre[(*PipelineRunner).startJob.timerDone]* prunner.*/ensures[C03.timerTruth] prunner.*/ensures[C03.progress] prunner.(*PipelineRunner).ScheduleAsync/ensures[C05.replace] prunner.(*PipelineRunner).startJob/ensures[skipCanceled] prunner.(*PipelineRunner).resolveDequeueJobAction/ensures* prunner/writers[PipelineJob.startTimer] prunner/writers[PipelineJob.StartDelay] prunner.*/monitor[RI] prunner.*/ensures[ri] prunner.*/call-pre[*.ri]* prunner/writers[PipelineJob.Created] prunner/writers[PipelineJob.Start]
